@@ -1218,6 +1218,130 @@ example : (basisChain AsdfLib.observed [("a.fits".toList, none), ("b.pkl".toList
     ⟨.sparse (denseToCsc ⟨"f8", [2, 3], [1, 0, 3, 4, 5, 0]⟩), some ⟨.cartesian, .regular [.float 1] [2] [.float 0], .null⟩⟩).map
       (fun b => (b.isSparse, b.denseArr.data)) = .ok (true, [1, 0, 3, 4, 5, 0]) := by decide +kernel
 
+/-! ## dtypes: what each route does with kind, item size and byte order -/
+
+/-- `DType.all` is every well-formed dtype. -/
+theorem dtype_all_complete (d : DType) (h : d.wellFormed = true) : d ∈ DType.all := by
+  obtain ⟨k, n, o⟩ := d
+  simp only [DType.wellFormed, Bool.and_eq_true] at h
+  obtain ⟨hk, ho⟩ := h
+  have hn : n = 1 ∨ n = 2 ∨ n = 4 ∨ n = 8 ∨ n = 16 := by
+    cases k <;> simp only [Bool.or_eq_true, beq_iff_eq] at hk <;> omega
+  rcases hn with rfl | rfl | rfl | rfl | rfl <;> cases k <;> cases o <;> revert hk ho <;> decide
+
+example : DType.all.all DType.wellFormed = true := by decide
+
+/-- The table `fitsDtypeOk` (the executed guard of `writeFieldFits` / `writeBasisFits`) **is**
+astropy's `BITPIX` lookup succeeding, for every dtype and byte order. -/
+theorem fitsDtypeOk_iff_card (d : DType) (h : d.wellFormed = true) :
+    fitsDtypeOk d.tag = (fitsCard d).toBool := by
+  have : ∀ d ∈ DType.all, fitsDtypeOk d.tag = (fitsCard d).toBool := by decide
+  exact this d (dtype_all_complete d h)
+
+/-- **`write_rejects`**: the only refusals on account of the dtype are image HDUs of `bool`,
+`float16` and complex values (`KeyError` before anything is written); every other route accepts
+every dtype. -/
+theorem write_rejects (r : Route) (d : DType) (h : d.wellFormed = true) :
+    (readDType r d = .error .key ↔
+      (r = .fitsImageField ∨ r = .fitsImageBasis) ∧
+        (d.kind = .bool ∨ d.kind = .complex ∨ (d.kind = .float ∧ d.size = 2))) ∧
+    (∀ e, readDType r d = .error e → e = .key) := by
+  have H : ∀ d ∈ DType.all, ∀ r : Route,
+      (readDType r d = .error .key ↔
+        (r = .fitsImageField ∨ r = .fitsImageBasis) ∧
+          (d.kind = .bool ∨ d.kind = .complex ∨ (d.kind = .float ∧ d.size = 2))) ∧
+      (∀ e, readDType r d = .error e → e = .key) := by
+    intro d hd r
+    have hfin : ∀ d ∈ DType.all, ∀ r ∈ [Route.dict, .asdf, .pickle, .pickleObject, .pickleObject5, .fitsTree, .fitsImageField,
+          .fitsImageBasis],
+        (decide (readDType r d = .error .key) =
+          (decide (r = .fitsImageField ∨ r = .fitsImageBasis) &&
+            decide (d.kind = .bool ∨ d.kind = .complex ∨ (d.kind = .float ∧ d.size = 2)))) ∧
+        (match readDType r d with | .error e => decide (e = .key) | .ok _ => true) = true := by
+      decide
+    obtain ⟨h1, h2⟩ := hfin d hd r (by cases r <;> simp)
+    constructor
+    · constructor
+      · intro he
+        have : decide (readDType r d = .error .key) = true := decide_eq_true he
+        rw [h1] at this
+        simpa using this
+      · intro hc
+        have : (decide (r = .fitsImageField ∨ r = .fitsImageBasis) &&
+            decide (d.kind = .bool ∨ d.kind = .complex ∨ (d.kind = .float ∧ d.size = 2))) = true := by
+          simpa using hc
+        rw [← h1] at this
+        exact of_decide_eq_true this
+    · intro e he
+      rw [he] at h2
+      exact of_decide_eq_true h2
+  exact H d (dtype_all_complete d h) r
+
+/-- **`write_read_dtype_eq`**: whenever the write is accepted, the values read back have the same
+kind and item size; through a dictionary, an asdf file and the tree of a FITS file
+the byte order too; pickles and mode-basis images come back in native order. -/
+theorem write_read_dtype_eq (r : Route) (d d' : DType) (h : readDType r d = .ok d') :
+    d'.kind = d.kind ∧ d'.size = d.size ∧
+    ((r = .dict ∨ r = .asdf ∨ r = .fitsTree ∨ r = .pickleObject5) → d' = d) ∧
+    ((r = .pickle ∨ r = .pickleObject ∨ r = .fitsImageBasis) → d'.order = d.native.order) := by
+  cases r <;> simp only [readDType, fitsImageDType, bind, Except.bind, Except.map] at h
+  case dict => injection h with h; subst h; simp
+  case asdf => injection h with h; subst h; simp
+  case fitsTree => injection h with h; subst h; simp
+  case pickleObject => injection h with h; subst h; simp [DType.native]
+  case pickleObject5 => injection h with h; subst h; simp
+  case pickle => injection h with h; subst h; simp [DType.native]
+  case fitsImageField =>
+    cases hc : fitsCard d with
+    | error e => rw [hc] at h; cases h
+    | ok c =>
+      rw [hc] at h
+      injection h with h
+      subst h
+      refine ⟨?_, ?_, by simp, by simp⟩ <;> (split <;> [rfl; (split <;> rfl)])
+  case fitsImageBasis =>
+    cases hc : fitsCard d with
+    | error e => rw [hc] at h; cases h
+    | ok c =>
+      rw [hc] at h
+      injection h with h
+      subst h
+      refine ⟨?_, ?_, by simp, ?_⟩
+      · split <;> [rfl; (split <;> rfl)]
+      · split <;> [rfl; (split <;> rfl)]
+      · intro _
+        simp only [DType.native]
+        split <;> [rfl; (split <;> rfl)]
+
+/-- **`write_read_values_eq`, FITS images**: for every dtype astropy takes, every value the dtype
+can hold is stored as a number that fits the storage type chosen by `BITPIX` (so nothing wraps or
+saturates: signed bytes and unsigned 16/32/64-bit integers are shifted by `BZERO` into the signed /
+unsigned range of the same width), and loading gives the value back.  For the other routes the
+values are the stored array itself (`field_dict_roundtrip`, `asdf_field_roundtrip`,
+`field_pickle_roundtrip`, …). -/
+theorem write_read_values_eq (d : DType) (c : FitsCard) (hc : fitsCard d = .ok c) :
+    (∀ v : Int, d.holds v = true → c.fits (v - c.bzero) = true ∧ c.store v = ((v - c.bzero : Int) : Rat)) ∧
+    (∀ q : Rat, c.load (c.store q) = q) := by
+  constructor
+  · intro v hv
+    constructor
+    · obtain ⟨k, n, o⟩ := d
+      simp only [fitsCard] at hc
+      split at hc <;> cases hc <;>
+        simp [DType.holds, FitsCard.fits] at hv ⊢ <;>
+        first
+          | omega
+          | (have h1 := of_decide_eq_true hv.1; have h2 := of_decide_eq_true hv.2; omega)
+          | (have h2 := of_decide_eq_true hv.2; have h1 := hv.1; omega)
+    · simp [FitsCard.store]
+  · intro q
+    simp only [FitsCard.load, FitsCard.store]
+    exact Rat.sub_add_cancel ..
+
+example : fitsCard ⟨.uint, 2, .big⟩ = .ok ⟨16, 32768⟩ ∧ (⟨.uint, 2, .big⟩ : DType).holds 65535 = true ∧
+    (⟨16, 32768⟩ : FitsCard).fits (65535 - 32768) = true ∧
+    readDType .fitsImageField ⟨.uint, 2, .big⟩ = .ok ⟨.uint, 2, .little⟩ := by decide
+
 /-! ## Old — the unrepaired read/write paths and their counterexamples
 
 Documentation of the defects that were found (D14, D19, D160, D161): statements about `…Old`
